@@ -12,6 +12,7 @@ import (
 	mocker "github.com/tencent/goom"
 	"github.com/tencent/goom/erro"
 	asmleaf "github.com/tencent/goom/nocgo"
+	"github.com/tencent/goom/zzverif/corpus/conv"
 	"github.com/tencent/goom/zzverif/corpus/fn"
 	"github.com/tencent/goom/zzverif/corpus/ifc"
 	"github.com/tencent/goom/zzverif/corpus/sig"
@@ -168,6 +169,19 @@ func TestVerifRejectScenarios(t *testing.T) {
 		}
 		return fmt.Sprintf("mocked(%d)", fn.Loop(5))
 	}
+	structTok := func() string {
+		if r := conv.RStruct(); r.A != -1 || r.B != "orig" {
+			return fmt.Sprintf("mocked(%+v)", r)
+		}
+		if conv.PStruct(conv.S{}) != -1 || conv.RPtr().A != -1 {
+			return "mocked"
+		}
+		return "orig"
+	}
+	more = append(more,
+		scen{"ret-size-struct", func(b *mocker.Builder) { b.Func(conv.RStruct).Return(conv.SBig{A: 1, B: "a", C: 2}) }, structTok, nil, nil},
+		scen{"ret-size-ptr", func(b *mocker.Builder) { b.Func(conv.RPtr).Return("a string") }, structTok, nil, nil},
+		scen{"when-arg-size-struct", func(b *mocker.Builder) { b.Func(conv.PStruct).When(conv.SBig{A: 1, B: "a", C: 2}).Return(1) }, structTok, nil, nil})
 	more = append(more, scen{"origin-unrelocatable", func(b *mocker.Builder) {
 		b.Func(fn.Loop).Origin(&fn.OLoop).Apply(func(a int) int { return 3000 + fn.OLoop(a) })
 	}, loopTok, nil, nil})
